@@ -826,9 +826,9 @@ class Plan:
     """The TLC runs of one object, started in the background as soon as the variant flags of the working tree
     are known (TLC is a sub-process: the runs of all objects proceed while Python replays histories)."""
 
-    def __init__(self, pool, world: World, wd, *, mcspec, probe_spec, repaired, asis, viol, probe, budget, flags0=None):
+    def __init__(self, pool, world: World, wd, *, mcspec, probe_spec, repaired, asis, viol, probe, budget, flags0=None, persist=None):
         self.world, self.budget = world, budget
-        self.names = dict(repaired=repaired, asis=asis, viol=list(viol), probe=probe)
+        self.names = dict(repaired=repaired, asis=asis, viol=list(viol), probe=probe, persist=persist)
         self.t_start = time.time()
         self.flags = dict(flags0 or {})
         self.flags.update(world.live_flags())
@@ -844,6 +844,7 @@ class Plan:
         self.f_asis = pool.submit(tlc, OBJ / mcspec, cfg(asis), timeout=2400, workers=1, env=jv)
         self.f_probe = pool.submit(tlc, OBJ / "probe" / probe_spec, cfg(probe), timeout=2400, workers=1, env=jv)
         self.f_viol = [pool.submit(tlc, OBJ / mcspec, cfg(v), timeout=2400, workers=1, env=jv) for v in self.names["viol"]]
+        self.f_persist = pool.submit(tlc, OBJ / "probe" / probe_spec, cfg(persist), timeout=2400, workers=1, env=jv) if persist else None
         # does "distinct quantities have distinct keys" hold for the keys of the working tree?  (the invariant alone, initial state)
         self.f_keys = None
         if self.names["viol"]:
@@ -875,6 +876,14 @@ def run_object(ck: Check, plan: Plan, rnd):
     ph = _histories(rp, "state")
     if not ph:
         raise MachineryError(f"{names['probe']} emitted no histories")
+    # 2b'. persistence probe ([writer;] save; writer; load; reads): never sampled away
+    pp = []
+    if plan.f_persist is not None:
+        rq = plan.f_persist.result()
+        ck.model(f"{name}:{names['persist'][:-4]}.live", rq)
+        pp = _histories(rq, "state")
+        if not pp:
+            raise MachineryError(f"{names['persist']} emitted no histories")
     # 2c. TLC's counterexamples to the requirement on the live transcription: shortest history per class
     classes, n_viol_states = {}, 0
     for v, fv in zip(names["viol"], plan.f_viol):
@@ -899,7 +908,7 @@ def run_object(ck: Check, plan: Plan, rnd):
     ck.part(name + "_model", live_transcription_is_repaired_design=all(plan.variant.values()),
             requirement_refuted_for_live_transcription=refuted, violating_states=n_viol_states, violating_classes=len(classes))
 
-    hists = [("cover", h) for h in cover] + [("probe", h) for h in ph] + [("predicted", h) for h in predicted]
+    hists = [("cover", h) for h in cover] + [("probe", h) for h in ph] + [("persist", h) for h in pp] + [("predicted", h) for h in predicted]
     viol_found, mism, coincident, n_stale_model, n_bad, unconfirmed = {}, 0, 0, 0, 0, 0
     t0 = time.time()
     for src, h in hists:
@@ -927,7 +936,7 @@ def run_object(ck: Check, plan: Plan, rnd):
         for p in problems:       # per key, the shortest failing history
             if p["key"] not in viol_found or p["step"] + 1 < len(viol_found[p["key"]][0]):
                 viol_found[p["key"]] = (h[: p["step"] + 1], p, init)
-    ck.part(name + "_replay", histories=len(hists), cover=len(cover), cover_of=total_cover, probe_histories=len(ph),
+    ck.part(name + "_replay", histories=len(hists), cover=len(cover), cover_of=total_cover, probe_histories=len(ph), persistence_probe_histories=len(pp),
             predicted_violation_histories=len(predicted), predicted_not_observable=unconfirmed,
             steps=sum(len(h) for _, h in hists), model_stale_steps=n_stale_model, real_stale_steps=n_bad,
             prediction_mismatches=mism, predicted_stale_but_values_coincide=coincident,
@@ -1057,7 +1066,8 @@ def main(tier=None, replay=None):
         if want("family"):
             plans.append(Plan(pool, FamilyWorld(fx, rec, wd), wd, mcspec="MCFamilyObject.tla", probe_spec="MCFamilyProbe.tla",
                               repaired=f"FamilyObject.repaired.{t}.cfg", asis=f"FamilyObject.asis.{t}.cfg",
-                              viol=["FamilyObject.viol.cfg"], probe=f"FamilyProbe.asis.{t}.cfg", budget=300 if q else 4000, flags0=dm))
+                              viol=["FamilyObject.viol.cfg"], probe=f"FamilyProbe.asis.{t}.cfg", budget=300 if q else 4000, flags0=dm,
+                              persist="FamilyProbe.persist.cfg"))
         if want("torus"):
             plans.append(Plan(pool, TorusWorld(fx, rec, wd), wd, mcspec="MCTorusObject.tla", probe_spec="MCTorusProbe.tla",
                               repaired="TorusObject.repaired.cfg", asis=f"TorusObject.asis.{t}.cfg", viol=["TorusObject.viol.cfg"],
@@ -1074,11 +1084,12 @@ def main(tier=None, replay=None):
             plans.append(Plan(pool, PointWorld(fx, rec, wd, "L3"), wd, mcspec="MCPointObject.tla", probe_spec="MCPointProbe.tla",
                               repaired="PointObject.repaired.opts.cfg", asis=f"PointObject.lin.{t}.cfg",
                               viol=["PointObject.viollin.cfg", "PointObject.violopts.cfg"],
-                              probe=f"PointProbe.lin.{t}.cfg", budget=300 if q else 3000, flags0=dm))
+                              probe=f"PointProbe.lin.{t}.cfg", budget=300 if q else 3000, flags0=dm, persist="PointProbe.persist.cfg"))
         if want("tri"):
             plans.append(Plan(pool, PointWorld(fx, rec, wd, "L4"), wd, mcspec="MCPointObject.tla", probe_spec="MCPointProbe.tla",
                               repaired="PointObject.repaired.tri.cfg", asis=f"PointObject.tri.{t}.cfg",
-                              viol=["PointObject.violtri.cfg"], probe=f"PointProbe.tri.{t}.cfg", budget=200 if q else 2000, flags0=dm))
+                              viol=["PointObject.violtri.cfg"], probe=f"PointProbe.tri.{t}.cfg", budget=200 if q else 2000, flags0=dm,
+                              persist="PointProbe.persisttri.cfg"))
         dbg("TLC runs started")
         if pw is not None:
             warm_up(pw)
